@@ -73,7 +73,7 @@ func cmdCheck(args []string) {
 	}
 	thorough := *tier == "thorough"
 	thoroughTier = thorough
-	secs := 10
+	secs := 20 // CPU-seconds per solver and stage (quick tier); 10 left two obligations of C04 at 50-75% of the limit on this machine and over it on a slower one
 	if thorough {
 		secs = 60
 	}
@@ -175,7 +175,7 @@ func cmdCheck(args []string) {
 		}
 	}
 
-	ev := evidence{Load: loadSecs}
+	ev := evidence{Load: loadSecs, Limit: secs}
 	ev.init()
 	var viols []violation
 	solverCount := map[string]int{}
@@ -239,6 +239,13 @@ func cmdCheck(args []string) {
 				all = append(all, o)
 			}
 		}
+	}
+	// the slowest obligations of this run (a proof that needs a large part of the time limit is an unstable one)
+	slowest := append([]*Obligation{}, all...)
+	sort.SliceStable(slowest, func(i, j int) bool { return slowest[i].Secs > slowest[j].Secs })
+	for i := 0; i < 8 && i < len(slowest); i++ {
+		o := slowest[i]
+		ev.Slowest = append(ev.Slowest, map[string]interface{}{"obligation": o.Name, "solver": o.Solver, "solver_s": round3(o.Secs), "status": o.Status})
 	}
 	for i := 0; i < 6 && i < len(all); i++ {
 		o := all[(seed+i*(len(all)/6+1))%len(all)]
@@ -390,6 +397,8 @@ type evidence struct {
 	SolverCount      map[string]int
 	SolverSecs       map[string]float64
 	Samples          []interface{}
+	Slowest          []interface{}
+	Limit            int
 	Assumed          []string
 	ModelSet         map[string]bool
 	TrustedContracts map[string]bool
@@ -452,6 +461,8 @@ func writeEvidence(verifDir, prop, tier string, seed int, ev evidence) {
 		"checker_cmd":                           fmt.Sprintf("/verif/bin/govc check -prop %s -tier %s", prop, tier),
 		"trusted_base":                          trusted,
 		"samples":                               ev.Samples,
+		"slowest_obligations":                   ev.Slowest,
+		"solver_limit_cpu_s":                    ev.Limit,
 		"functions_under_contract":              ev.Funcs,
 		"obligations_by_kind":                   ev.ByKind,
 		"discharged_by_solver":                  ev.SolverCount,
